@@ -12,6 +12,7 @@ import Orda.Proofs.DocLocalRemote
 import Orda.Proofs.DocNet
 import Orda.Proofs.ListNet
 import Orda.Proofs.MapNet
+import Orda.Proofs.DocNetCreate
 namespace Orda.Props.C01
 open Orda
 
@@ -293,5 +294,40 @@ theorem counter_same_operations_same_state (cuid : Nat → String) (n : Nat) (ne
     (h : MNet.Reach .counter cuid n net) (i j : Nat) (hi : i < net.nodes.length) (hj : j < net.nodes.length)
     (hso : MNet.SameOps net i j) : net.nodes[i].r.state = net.nodes[j].r.state :=
   cnet_same_operations_same_state net h i j hi hj hso
+
+/-! ## The system as it really starts: ONE creating client (its creation snapshot operation heads the log), the others subscribe -/
+
+open Orda.DNet Orda.DNetC Orda.DA in
+/-- with the creating client and its snapshot operation in the log: at quiescence creator and subscribers hold the same document -/
+theorem doc_created_net_quiescent_replicas_agree {cuid : Nat → String} {n : Nat} (net : Net) (h : ReachC cuid n net)
+    (hq : Quiescent net) (i j : Nat) (hi : i < net.nodes.length) (hj : j < net.nodes.length) (di dj : Doc)
+    (hsi : net.nodes[i].r.state = .doc di) (hsj : net.nodes[j].r.state = .doc dj) :
+    ASim di dj ∧ di.view.canon = dj.view.canon :=
+  created_net_quiescent_converged net h hq i j hi hj di dj hsi hsj
+
+open Orda.DNet Orda.DNetC Orda.DA in
+/-- … and at every moment two nodes that have applied the same operations hold the same document -/
+theorem doc_created_net_same_operations_same_document {cuid : Nat → String} {n : Nat} (net : Net) (h : ReachC cuid n net)
+    (i j : Nat) (hi : i < net.nodes.length) (hj : j < net.nodes.length) (di dj : Doc)
+    (hsi : net.nodes[i].r.state = .doc di) (hsj : net.nodes[j].r.state = .doc dj) (hso : SameOps net i j) :
+    ASim di dj ∧ di.view.canon = dj.view.canon :=
+  created_net_same_operations_same_document net h i j hi hj di dj hsi hsj hso
+
+open Orda.DNet Orda.DNetC in
+/-- the log starts with the creation snapshot operation and contains it nowhere else -/
+theorem doc_created_log_starts_with_snapshot {cuid : Nat → String} {n : Nat} (net : Net) (h : ReachC cuid n net) :
+    (∀ e, net.log[0]? = some e → e = snapEnt cuid) ∧
+    (∀ k a o, net.log[k]? = some (a, o) → k ≠ 0 → ∃ x, DR.toDOp o = some x ∧ DR.ValuesOK x) :=
+  log_starts_with_snapshot net h
+
+open Orda.DNetC in
+/-- why a subscriber is usable only after its first sync: a call issued BEFORE the snapshot operation is pulled is wiped out by its
+    delivery and the replicas end up different (machine-checked run; the library discards such operations) -/
+theorem doc_call_before_first_pull_diverges :
+    ∃ net, (initC Ex.cu 2).run badActs = some net ∧ (∀ a ∈ badActs, DNet.ActOK a) ∧ DNet.Quiescent net ∧
+      (net.nodes.map fun nd => (Ex.docOf nd.r).view.canon == .obj [("k", .num 1)]) = [true, false] ∧
+      (net.nodes.map fun nd => (Ex.docOf nd.r).view.canon == .obj []) = [false, true] ∧
+      (runC (initC Ex.cu 2) badActs).isSome = false :=
+  call_before_first_pull_diverges
 
 end Orda.Props.C01
